@@ -266,6 +266,30 @@ def run_c11(ctx):
                 infra_error=None if r["signature_checks_accepting"] > 100 and r["signature_checks_rejecting"] > 100 else "vacuous exploration")
 
 
+# ------------------------------------------------------------------------------------------- C13
+def run_c13(ctx):
+    r = run_engine(ctx, "mc_tx", [])
+    if "infra_error" in r:
+        return _infra("model_checking", r)
+    c = r["classes"]
+    valid = sum(v for k, v in c.items() if k.endswith(":valid"))
+    invalid = sum(v for k, v in c.items() if k.endswith(":invalid"))
+    cov = {
+        "states": r["cases"], "transitions": r["cases"], "traces_validated_against_impl": valid + invalid,
+        "samples": r["samples"], "exhaustive": True,
+        "bounds": ["structure product: 1..3 inputs x 0..3 outputs x every witness mix {absent, 1 item, 3 items} per input x versions {1,2,-1,2^31-1} x sequences x amounts {0,1,21e14,-1,INT64_MAX,INT64_MIN}",
+                   "scriptSig / scriptPubKey / witness-item lengths over {0,1,75,76,252,253,254,255,256,65535,65536} (all pairs, triples in the thorough tier); 252/253/254 inputs, outputs, witness items",
+                   "for %d representative transactions: every proper prefix, odd-length hex, every value of the marker and flag bytes, witness flag with all-empty stacks, non-canonical compact size, embedded spaces, upper case, non-hex character, 0x prefix" % r["representatives"],
+                   "%d decimal amount strings: integer parts {0,1,20999999,21000000,92233720368,...} x fractional digit patterns over {0,1,9} with 1..8 digits, sign / exponent / malformed spellings; amount lists" % r["amount_strings"]],
+        "case_classes": c, "well_formed_cases": valid, "rejected_cases": invalid,
+    }
+    return dict(level="model_checking", coverage=cov, violations=r["violations"],
+                assumptions=["oracle: ref/reftx.hpp (strict BIP144 parser and serialiser, double-SHA256 via OpenSSL)", "trailing bytes after a complete transaction are outside the property's quantifier: counted as an observation",
+                             "amount strings with more than 8 fractional digits are outside the quantifier"],
+                summary="%d cases (%d well-formed, %d to be rejected)" % (r["cases"], valid, invalid),
+                infra_error=None if valid > 1000 and invalid > 1000 else "vacuous exploration")
+
+
 def _lazy(modname, fn):
     def f(ctx, *a):
         import importlib
@@ -274,6 +298,7 @@ def _lazy(modname, fn):
 
 
 PROPS = {
+    "C13": dict(targets=["mc_tx"], run=run_c13, replay=replay_engine("mc_tx")),
     "C02": dict(targets=["mc_sig"], run=run_c02, replay=replay_engine("mc_sig")),
     "C11": dict(targets=["mc_sig"], run=run_c11, replay=replay_engine("mc_sig")),
     "C07": dict(targets=["btcc", "mc_refcli"], run=_lazy("c07_btcc", "run"), replay=_lazy("c07_btcc", "replay")),
